@@ -3,7 +3,7 @@
 (* ndjson line per executed case): the relations of Wire.tla are evaluated   *)
 (* on every line; breaches are accumulated in `viol` (one record per rule    *)
 (* and discriminator, with the first case and a count).                      *)
-EXTENDS Wire, Json, IOUtils, TLCExt
+EXTENDS Wire, Json, IOUtils, TLCExt, Integers
 
 Rec == ndJsonDeserialize(IOEnv.TRACE)
 Prop == IOEnv.PROP
@@ -111,6 +111,23 @@ C10Viol(e) ==
   ELSE {}
 
 ---------------------------------------------------------------------------
+(* C14: whatever the server sends, the affected call ends with an error or a value, nothing       *)
+(* panics or hangs, and the other outstanding requests still get their own replies.  gid is the    *)
+(* message-id readable from the reply's header alone (well-formed start tag in the base namespace  *)
+(* of a valid UTF-8 message), -1 if there is none: 2 = the request the garbage answers.            *)
+NErr(res) == Cardinality({i \in 1..Len(res) : res[i] \notin {"ok", "pending", "notsent"}})
+C14Viol(e) ==
+  LET what == "message=" \o e.c.tmpl \o " mutation=" \o e.c.op IN
+  IF Has(e, "panic") THEN {V("Panic", what, e)}
+  ELSE IF Has(e, "hello") THEN (IF e.hello = "hang" THEN {V("HelloNeverResolves", what, e)} ELSE {})
+  ELSE IF \E i \in 1..Len(e.res) : e.res[i] = "pending" THEN {V("CallNeverResolves", what, e)}
+  ELSE IF e.gid = 2 /\ (e.res[1] # "ok" \/ e.res[3] # "ok")
+       THEN {V("OtherRequestsDisturbed", what \o " (header names its own request)", e)}
+  ELSE IF e.gid = -1 /\ NErr(e.res) > 1
+       THEN {V("OtherRequestsDisturbed", what \o " (unattributable garbage failed more than one call)", e)}
+  ELSE {}
+
+---------------------------------------------------------------------------
 (* C13: every information-equivalent serialisation of a message is parsed to the same outcome *)
 C13Viol(e) ==
   IF e.digest = e.base THEN {}
@@ -126,6 +143,7 @@ LineViol(e) ==
     [] e.ev = "c12" -> C12Viol(e)
     [] e.ev = "c13" -> C13Viol(e)
     [] e.ev = "c10" -> C10Viol(e)
+    [] e.ev = "c14" -> C14Viol(e)
     [] OTHER -> {V("UnknownEvent", e.ev, e)}
 
 Nontrivial(e) ==
@@ -134,6 +152,7 @@ Nontrivial(e) ==
     [] e.ev = "c12" -> e.established = "yes"
     [] e.ev = "c13" -> e.flags # <<>>
     [] e.ev = "c10" -> e.sent /\ e.classes # <<>>
+    [] e.ev = "c14" -> e.c.op # "none"
     [] OTHER -> FALSE
 
 TInit == l = 1 /\ viol = {} /\ stats = [lines |-> 0, nontrivial |-> 0]
